@@ -182,11 +182,20 @@ def check_label_layout(ctx, rep, kind, rule=RULE + '.b'):
         if isinstance(n, ast.Call) and isinstance(n.func, ast.Attribute) and n.func.attr == 'add' and isinstance(n.func.value, ast.Subscript) and u(n.func.value.value) == 'delta':
             key, val = n.func.value.slice, n.args[0]
         if key is not None:
+            def bare(x):
+                # State(p) / Symbol(a) / Direction(d) are identity wrappers (NewTypes)
+                while isinstance(x, ast.Call) and isinstance(x.func, ast.Name) and x.func.id in ('State', 'Symbol', 'Direction') and len(x.args) == 1:
+                    x = x.args[0]
+                return u(x)
+            if isinstance(key, ast.Name):
+                key = resolve_alias(build, key)
+            if isinstance(val, ast.Name):
+                val = resolve_alias(build, val)
             for j, x in enumerate(key.elts if isinstance(key, ast.Tuple) else [key]):
-                brole[u(x)] = ('key', j)
+                brole[bare(x)] = ('key', j)
             if isinstance(val, ast.Tuple):
                 for j, x in enumerate(val.elts):
-                    brole[u(x)] = ('val', j)
+                    brole[bare(x)] = ('val', j)
     if len(unpack) != len(layout):
         rep.violates(rule, build, 'unpack of label', 'the label written by print_{} has {} characters but the builder unpacks {}'.format(kind, len(layout), len(unpack)))
         return
@@ -481,6 +490,11 @@ def check_regexp_io(ctx, rep, rule=RULE + '.d'):
 def check_cfg_io(ctx, rep, rule=RULE + '.e'):
     pf = ctx.prog.func('cfg_algorithms.cfg_print_simple')
     helper = pf.nested.get('print_alternative')
+    if helper is None:
+        # the helper that renders one alternative, whatever its name: a nested function that joins `<x>.symbols`
+        for h0 in pf.nested.values():
+            if any(isinstance(c, ast.Call) and isinstance(c.func, ast.Attribute) and c.func.attr == 'join' and c.args and u(c.args[0]).endswith('.symbols') for c in ast.walk(h0.node)):
+                helper = h0
     eps_written = None
     sep = None
     class _R:       # a returned value together with the node to report
@@ -593,6 +607,28 @@ def check_paren_independence(ctx, rep, rule=RULE + '.d'):
                 a, b = (u(x) for x in st.targets[0].elts)
                 flags[a] = 0
                 flags[b] = 1
+        # the wrap may live in a local helper:  def parenthesize(text, needed): return '({})'.format(text) if needed else text
+        for h in f.nested.values():
+            ps = [p_ for p_ in h.params]
+            if len(ps) != 2:
+                continue
+            wraps_text = any(isinstance(c, ast.Call) and isinstance(c.func, ast.Attribute) and c.func.attr == 'format' and isinstance(c.func.value, ast.Constant)
+                             and c.func.value.value == '({})' and c.args and u(c.args[0]) == ps[0] for c in ast.walk(h.node))
+            cond_on_flag = any(isinstance(t, (ast.IfExp, ast.If)) and u(t.test) == ps[1] for t in ast.walk(h.node))
+            if not (wraps_text and cond_on_flag):
+                continue
+            for c in walk_no_nested(f.node):
+                if isinstance(c, ast.Call) and isinstance(c.func, ast.Name) and c.func.id == h.name and len(c.args) == 2:
+                    n += 1
+                    fl = names_in(c.args[1]) & set(flags)
+                    if isinstance(c.args[1], ast.Name) and len(fl) == 1:
+                        rep.holds(rule, f, c, 'the operand {} is parenthesised under its own flag {} only (through {})'.format(u(c.args[0])[:40], u(c.args[1]), h.name))
+                    elif len(fl) > 1:
+                        rep.violates(rule, f, c, 'the parenthesisation of one operand depends on the flags {} of both operands'.format(sorted(fl)))
+                    elif isinstance(c.args[1], ast.Name) or isinstance(c.args[1], ast.Call):
+                        rep.holds(rule, f, c, 'the operand is parenthesised under the single condition {}'.format(u(c.args[1])), nontrivial=False)
+                    else:
+                        rep.undecided(rule, f, c, 'flag expression not recognised')
         by_branch = {}
         for w in wraps:
             n += 1
